@@ -145,6 +145,14 @@ def gen_table(rng, n_enums, big=False):
     if rng.random() < 0.15:
         plain = [f for f in fields if f != "status"]
         spec["wtypes"] = {rng.choice(plain): [rng.randint(0, 4), rng.randint(4, 9)]}
+    if rng.random() < 0.08 and recs:
+        # a user's field type that raises for some values: the rendering of this table fails half-way
+        spec["poison"] = rng.choice([f for f in fields if f in ("name", "level")] or ["id"])
+        j = rng.randrange(len(recs))
+        recs[j][fields.index(spec["poison"])] = "Jerry" if spec["poison"] == "name" else 13
+    if rng.random() < 0.08 and recs and "name" in fields:
+        # a cell whose text is produced by a nested rendering
+        recs[rng.randrange(len(recs))][fields.index("name")] = {"nested": rng.choice([[1, "a"], {"k": None}, []])}
     if rng.random() < 0.08 and len(fields) >= 3 and recs:
         # an "enhanced" table: values are found by the paths given in the format
         f0, f1, f2 = fields[0], fields[1], fields[2]
@@ -753,6 +761,11 @@ def _do_op(w, trace, op, n, k, log, color):
 
 def _finish(w, trace, status, log, alloc):
     st = dict(w.stats)
+    st["fault.rendering_raised_midway"] = st["ref_errors_agreed"]
+    st["fault.line_task_abandoned"] = st["tasks_abandoned"]
+    st["fault.gc_at_scheduled_point"] = st["gc_runs"]
+    st["fault.configuration_dropped"] = st["conf_dropped"]
+    st["fault.id_reused"] = alloc.reused
     st["id_calls"] = alloc.calls
     st["id_reused"] = alloc.reused
     st["ref_requests"] = rw.ref_requests()
